@@ -40,11 +40,11 @@ func vfstub_sm_waitForSend(s *Session, hdr header, body []byte) error {
 
 type smEnd struct {
 	stream    *Stream
-	model     [64]byte // bytes flushed towards this end, in order
-	sent      int      // flushed towards this end
-	deliv     int      // ... of which delivered to this end's session
-	read      int      // consumed by this end
-	closed    bool     // this end called Close
+	model     [160]byte // bytes flushed towards this end, in order
+	sent      int       // flushed towards this end
+	deliv     int       // ... of which delivered to this end's session
+	read      int       // consumed by this end
+	closed    bool      // this end called Close
 	lastSt    uint32
 	sawEOF    bool
 	overtaken bool // closed by its sender while its socket-fallback data was still on the wire
